@@ -277,6 +277,50 @@ def _unroll(fn: ast.AST, consts: dict[str, ast.expr], log: list[str]) -> None:
                 i += 1
 
 
+LOG_METHODS = {'debug', 'info', 'warning', 'warn', 'error', 'exception', 'critical', 'log'}
+PURE_IN_LOG = {'get_rank', 'get_world_size', 'len', 'str', 'repr', 'int', 'float', 'round', 'sorted', 'list', 'tuple', 'type', 'format', 'join', 'getLogger', 'size', 'numel', 'nelement', 'dim',
+               'keys', 'values', 'items', 'is_initialized'}
+
+
+def _is_logging(st: ast.stmt) -> bool:
+    """`logger.debug(...)`, `logging.info(...)`, `x.getLogger(..).warning(...)`, `print(...)` whose arguments only call pure helpers."""
+    if not (isinstance(st, ast.Expr) and isinstance(st.value, ast.Call)):
+        return False
+    c = st.value
+    f = c.func
+    if isinstance(f, ast.Name) and f.id == 'print':
+        pass
+    elif isinstance(f, ast.Attribute) and f.attr in LOG_METHODS:
+        recv = f.value
+        ok = (isinstance(recv, ast.Name) and ('log' in recv.id.lower())) or \
+             (isinstance(recv, ast.Call) and isinstance(recv.func, ast.Attribute) and recv.func.attr == 'getLogger') or \
+             (isinstance(recv, ast.Attribute) and 'log' in recv.attr.lower())
+        if not ok:
+            return False
+    else:
+        return False
+    for a in list(c.args) + [k.value for k in c.keywords]:
+        for n in ast.walk(a):
+            if isinstance(n, ast.Call):
+                nm = n.func.attr if isinstance(n.func, ast.Attribute) else (n.func.id if isinstance(n.func, ast.Name) else None)
+                if nm not in PURE_IN_LOG:
+                    return False
+            if isinstance(n, (ast.Await, ast.Yield, ast.YieldFrom, ast.NamedExpr)):
+                return False
+    return True
+
+
+def _drop_logging(fn: ast.AST) -> int:
+    """N11: log / print statements carry no behaviour any property speaks about."""
+    n = 0
+    for _owner, blk in list(_blocks(fn)):
+        keep = [st for st in blk if not _is_logging(st)]
+        if len(keep) != len(blk):
+            n += len(blk) - len(keep)
+            blk[:] = keep or [ast.copy_location(ast.Pass(), blk[0])]
+    return n
+
+
 def _terminal(block: list[ast.stmt]) -> bool:
     return bool(block) and isinstance(block[-1], (ast.Return, ast.Raise, ast.Continue, ast.Break))
 
@@ -312,6 +356,7 @@ def run(tree: ast.Module, mutable: set[str] | None = None) -> tuple[ast.Module, 
                     blk[k] = a
     for fn in [n for n in tree.body if isinstance(n, (ast.FunctionDef, ast.AsyncFunctionDef))] + \
             [m for c in ast.walk(tree) if isinstance(c, ast.ClassDef) for m in c.body if isinstance(m, (ast.FunctionDef, ast.AsyncFunctionDef))]:
+        _drop_logging(fn)
         _drop_else(fn)
         _unroll(fn, consts, log)
         _fold(fn)
